@@ -75,6 +75,10 @@ func unescape(s string) (string, error) {
 		return s, nil
 	}
 
+	if len(s) < 3*count {
+		return "", errs.New("error unescaping %q: sequence ends", s)
+	}
+
 	var t strings.Builder
 	t.Grow(len(s) - 2*count)
 
